@@ -539,7 +539,9 @@ def large_cases(s, n_cases, level='both'):
             bigst = st.story(S[big])
             I = [x for x in (gen.item_ids(bigst) if bigst is not None else [])]
             c = rng.random()
-            if level in ('both', 'story') and c < 0.5:
+            if len(live) < 3:
+                kind, kw = 'roStoryAppend', dict(carried=[gen.simple_story(ids.new(), 1) for _ in range(6)])
+            elif level in ('both', 'story') and c < 0.5:
                 kind = rng.choice(['EAStoryMove', 'EAStoryDelete', 'roStoryDelete', 'EAStorySwap', 'roStoryMove',
                                    'roStoryInsert', 'EAStoryInsert', 'roStoryReplace'])
                 if kind == 'EAStoryMove':
